@@ -77,4 +77,12 @@ def run(ctx):
     ctx.evaluations = len(evs)
     for e in evs[:2] + evs[-2:]:
         ctx.sample(hc.describe(e))
+    if not quick:
+        # the repository's own 3592 tests as a trace source (recording plugin, no repository edits)
+        import recorded
+        rec = recorded.record(ctx, "header")
+        for e in rec:
+            e["id"] = "repo-" + e["id"]
+        evs += rec
+        ctx.evaluations = len(evs)
     hc.judge(ctx, evs)
